@@ -740,6 +740,25 @@ class ModelsOps:
             if sq is not None:
                 vals = [self.truth(x, node) for x in sq]
                 return BoolV(all(vals) if name == "all" else any(vals))
+        if name == "range" and len(args) == 1 and isinstance(args[0], Num) and self.st.norm(args[0].rf).is_const():
+            n_ = int(self.st.norm(args[0].rf).const_value())
+            return ListV([self.num_const(i) for i in range(n_)])
+        if name == "map" and len(args) >= 2:
+            seqs = [self.iterate(a, node) for a in args[1:]]
+            if all(sq is not None for sq in seqs):
+                self.st.effects.append(("map", args[0], seqs, self.where(node)))
+                return ListV([self.call(args[0], list(t), {}, node) for t in zip(*seqs)])
+        if name == "sorted" and args:
+            sq = self.iterate(args[0], node)
+            if sq is not None and len(sq) <= 4:
+                # the order of symbolic keys is unknown: every permutation is a path
+                import itertools
+                perms = list(itertools.permutations(range(len(sq))))
+                rev = kwargs.get("reverse")
+                self.st.effects.append(("sorted", sq, rev, kwargs.get("key"), self.where(node)))
+                k = self.I.choose(len(perms), f"sorted-order@{getattr(node, 'lineno', '?')}",
+                                  ["".join(map(str, p_)) for p_ in perms]) if len(perms) > 1 else 0
+                return ListV([sq[i] for i in perms[k]])
         if name in ("sorted", "map", "zip", "enumerate", "range", "filter"):
             self.st.effects.append((name, args, kwargs, self.where(node)))
             lv = ListV(None, tag=name)
